@@ -10,10 +10,14 @@ Inductive ecase : Type :=
 | ERead (id : N) (cf : config) (ti : txinfo) (height : option N) (next now_lo now_hi : N)
         (gas : option N) (acct_nonce : N) (got : env)
 | EMulti (id : N) (cf : config) (tis : list txinfo) (height : option N) (next now_lo now_hi : N)
-         (txids gases : option (list N)) (accts : list (N * N)) (got : list env).
+         (txids gases : option (list N)) (accts : list (N * N)) (got : list env)
+(* C17: the environment recorded for a simulation and the one recorded for the transaction that
+   followed it with the same sender / target / data: equal under the mask *)
+| EPair (id : N) (sim tx : env).
 
 Definition ecase_id (c : ecase) : N :=
-  match c with ETx id _ _ _ _ _ _ _ => id | ERead id _ _ _ _ _ _ _ _ _ => id | EMulti id _ _ _ _ _ _ _ _ _ _ => id end.
+  match c with ETx id _ _ _ _ _ _ _ => id | ERead id _ _ _ _ _ _ _ _ _ => id | EMulti id _ _ _ _ _ _ _ _ _ _ => id
+  | EPair id _ _ => id end.
 
 Section TieEnv.
   Variable GPB PM PS INDEXER INVALID CONTROLLER : N.
@@ -36,6 +40,7 @@ Section TieEnv.
             (lo <=? now) && (now <=? hi)
             && list_eqb env_eqb (firstn (length got) (read_multi_envs PM PS cf tis height next now txids gases (acct_of accts))) got
         end
+    | EPair _ a b => env_eqb (env_mask a) (env_mask b)
     end.
 
   Definition bad_env_cases (cs : list ecase) : list N :=
